@@ -267,7 +267,8 @@ def run(chk: common.Check):
         rule=("obligations = theorems of coq/props/C08.v (every averaging sequence). Trace validation + search on the five conf-* files, alt-loc point "
               "mutants (either order, letter and digit tags), partial alternates, identical / incomplete / displaced models: independent means, "
               "every group reported once, single-conformation identity, repeated models, no merged residue types, conformation names. "
-              "distinct = (case, averaged group)"),
+              "distinct = (case, averaged group)"
+              " Added in rounds 4-6: conformation names per alternate-location tag incl. digits, two copies of a ligand in one chain, a complex with one chain pulled away in model 2, three alternates of one position."),
         assumptions=["means are over R (search tolerance 1e-9)", "groups are matched across conformations as the code does (atom residue label + group type)",
                      "topping-up and conformation naming are checked by the search (and the parser correspondence of C13/C07), not by a theorem of their own"],
         trusted=["tools/vlib/detstrace.py recorder", "model/Dets.v validated by replay", "stdlib real axioms"])
